@@ -89,6 +89,8 @@ class C10(Check):
                 for cache in (False, True):
                     out.append({"kind": "draw_anim", "n": n, "loops": loops, "cache": cache})
         out.append({"kind": "iter_init_fail"})
+        for how in range(3):
+            out.append({"kind": "finalizer_fails", "how": how})
         return out
 
     def setup(self, shape, concrete):
@@ -112,9 +114,9 @@ class C10(Check):
         K["RM"].perf_counter_ns = tick
         w, h = eng.int("size_w", 1), eng.int("size_h", 1)
         size = G._Size(w, h)
-        fault_at = eng.int("fault_at", -1)  # -1: no fault
-        fault_kind = eng.choice("fault_kind", 2)
-        n = shape.get("n") or (eng.int("n_frames", 2) if kind in ("iter", "from_data_owned", "from_data_kept") else (2 if kind == "iter_init_fail" else 1))
+        fault_at = eng.int("fault_at", -1) if kind != "finalizer_fails" else -1  # -1: no fault
+        fault_kind = eng.choice("fault_kind", 2) if kind != "finalizer_fails" else 0
+        n = shape.get("n") or (eng.int("n_frames", 2) if kind in ("iter", "from_data_owned", "from_data_kept") else (2 if kind in ("iter_init_fail", "finalizer_fails") else 1))
         r = R(n, 1, size)
         R.current = r
         r.fault_at = fault_at
@@ -153,6 +155,33 @@ class C10(Check):
             finally:
                 sys.stdout = old
             eng.reachable()
+        elif kind == "finalizer_fails":
+            # the render class's own finalizer raises: the data still counts as finalized - it is never run again
+            r.finalizer_fails = True
+            how = shape["how"]  # finalized directly / by closing its iterator / by exhausting its iterator
+            d = r._get_render_data_(iteration=how != 0)
+            try:
+                if how == 0:
+                    d.finalize()
+                elif how == 1:
+                    K["RenderIterator"]._from_render_data_(r, d, None, P.ExactPadding(), 1, False, finalize=True).close()
+                else:
+                    it = K["RenderIterator"]._from_render_data_(r, d, None, P.ExactPadding(), 1, False, finalize=True)
+                    next(it)
+                    for _ in it:
+                        pass
+            except RuntimeError:
+                pass
+            eng.reachable()
+            eng.claim("a failing finalizer still leaves the data finalized", d.finalized)
+            try:
+                d.finalize()
+            except RuntimeError:
+                pass
+            eng.claim("finalize() after a failed finalizer does not run the finalizer again", r.finalize_calls.get(id(d), 0) == 1)
+            r.finalizer_fails = False
+            d.finalized = True  # (whatever happened: nothing is left for the garbage collector to finalize later)
+            return
         elif kind == "iter_init_fail":
             # invalid constructor arguments: nothing may leak
             try:
